@@ -622,6 +622,6 @@ def run(ctx):
     quick = ctx.tier == "quick"
     # the sweep is deterministic and cheap: run it first so that a loaded machine cannot starve it
     runner.run_items(ctx, "sweep", sweep_items(2, 1) if quick else sweep_items(3, 2), check_sweep)
-    total = 6400 if quick else 64000
+    total = 6400 if quick else 48000
     maxl = 8 if quick else 20
     runner.run_given(ctx, "random", cases(maxl), check_case, total // ctx.nshards)
